@@ -547,6 +547,9 @@ type RegAcceptOptions struct {
 	AllowedNSSAI []byte
 	NetFeature   []byte
 	T3512        *byte
+	// one-octet (type 1) IEs of table 8.2.7.1.1: MICO indication (B-) and network slicing indication
+	// (9-) come before T3512, the NSSAI inclusion mode (A-) after it
+	MICO, NetSlicing, NSSAIInclusion *byte
 }
 
 func RegistrationAccept(o RegAcceptOptions) []byte {
@@ -563,8 +566,17 @@ func RegistrationAccept(o RegAcceptOptions) []byte {
 	if o.NetFeature != nil {
 		out = append(out, tlv(0x21, o.NetFeature)...)
 	}
+	if o.MICO != nil {
+		out = append(out, 0xB0|*o.MICO&0x0f)
+	}
+	if o.NetSlicing != nil {
+		out = append(out, 0x90|*o.NetSlicing&0x0f)
+	}
 	if o.T3512 != nil {
 		out = append(out, tlv(0x5E, []byte{*o.T3512})...)
+	}
+	if o.NSSAIInclusion != nil {
+		out = append(out, 0xA0|*o.NSSAIInclusion&0x0f)
 	}
 	return out
 }
